@@ -143,7 +143,8 @@ MANIFEST_ENTRY = {
     'text': 'Every path explored to exhaustion: scope_string -> from_scope_string over element values spelled from a hostile alphabet and '
             'all presence patterns; scopes published by mk_scopes for a location are inside the location, all 3^6 enclosing patterns '
             'and no location differing in a specified element; filter_services_inside is total over composed, spelled and '
-            'unconstrained symbolic foreign scopes.',
+            'unconstrained symbolic foreign scopes; parse - change the result - parse again hands out independent, unchanged locations '
+            '(real interpreter semantics: CrossHair by-passes functools caches).',
     'note': 'Trusted: CrossHair/z3 path exhaustion. Bounded: element values <= 2 (quick) / 3 (thorough) characters from a 10-16 letter '
             'alphabet in 2 elements at a time; foreign scopes <= 4 path segments, <= 3-4 spelled or 2-3 unconstrained characters behind '
             'fixed prefixes. The MDIB behind mk_scopes is a stub exposing exactly what mk_scopes reads.',
